@@ -1,5 +1,9 @@
 use vh::report::{Ctx, Tier};
 
+// same allocator as the shipped binaries (emmylua_ls, emmylua_check, luafmt)
+#[global_allocator]
+static GLOBAL: mimalloc::MiMalloc = mimalloc::MiMalloc;
+
 fn usage() -> ! {
     eprintln!("usage: vcheck <PROP> [--seed N] [--shard I] [--nshards N] [--tier quick|thorough] [--out FILE] [--replay FILE] [--max-secs S] [--scale F] [--stack BYTES]");
     std::process::exit(2)
